@@ -230,6 +230,18 @@ claim('C14',
       'exhaustive enumeration of interruption points (crash-point style) x continuation modes against the uninterrupted run',
       'DESIGN.md#c14')
 
+claim('C15',
+      'A recorder around the step routine copies (t, x, y, f) after every accepted step. For every configuration of a '
+      'lattice (default + all single deviations + pairs over save_every {1,2,3,0}, limit_store, max_store {2,5,900}, store_f, '
+      'store_z, output files on/off, 9 Output selections incl. overlapping and invalid rows, single vs resumed run) on SMIB '
+      'and kundur_full: the in-memory series, the npz + lst files (independent reader and TDSData), export_csv and the csv '
+      'replay must hold exactly the recorder rows the thinning rule selects, bit-identical (1 ulp for the replay, whose csv '
+      'reader is not correctly rounded), with labels naming the address held; chunked off-loading must concatenate to the '
+      'same rows; queries by variable, device subset and name pattern must return the right columns.',
+      'Output-related options are supplied at load time (flag names are allocated at set-up); z columns are not compared.',
+      'bounded exhaustive enumeration of output configurations against a step-level recorder',
+      'DESIGN.md#c15')
+
 _PENDING = 'check not built yet in this round; planned per DESIGN.md (bounded exhaustive exploration applies)'
 for _p in ALL:
     if _p not in CLAIMED:
